@@ -1,7 +1,97 @@
-import PytezosModel.Michelson.PyObj
-/-! C12 — Python-object conversion of contract data round-trips (work in progress: counter-examples first). -/
+import PytezosModel.Proofs.C12
+/-! C12 — Python-object conversion of contract data round-trips.
+
+Mirror: `Impl.PyConv` (`get_type_layout`, `wrap_pair`, `wrap_or`, `iter_type_args`, `iter_values`, every
+`to_python_object` / `from_python_object` of the modelled types, `ContractData.decode` / `encode`), instantiated with
+the configuration `cfg?` the translator reads from the source now (is the `Unit` sentinel hashable, is
+`PairType.__lt__` lexicographic).
+
+FULL statement (properties.jsonl): for every storage or parameter type τ and every value v of it
+`from_python_object(to_python_object(v)) = v`; the contract-level encode and decode are mutual inverses; the field
+names used in Python objects are unique and stable for a given type.
+
+The full statement is FALSE on the code — see `option_option_counterexample` (inherent to the documented mapping) and
+`name_collision_counterexample` / `name_collision_or_counterexample` (a generated `prim_i` name can equal a declared
+one).  What is proved is the statement under the decidable guard `PyInvertible c τ` (`Spec.PyConv.inv`), which excludes
+exactly: `option (option _)`; a pair (outside key position) or union whose layout has two equal field names;
+non-comparable types in key position; and — only while the source has the corresponding defect — key / element types
+whose object contains `Unit` (no `__hash__`) and sets of pairs (`PairType.__lt__` not lexicographic).  Both
+source-dependent exclusions are vacuous for the configuration `source_shape` pins.  No depth bound anywhere: the proofs
+are by induction over the type (and over the lists inside values). -/
 namespace C12
 open Impl.PyConv Spec.PyConv
+
+/-- what the translator has to find in the source for the theorems below to apply -/
+theorem source_shape : cfg? = some ⟨true, true⟩ := by decide
+
+theorem cfg_unit {c : Cfg} (hc : cfg? = some c) : c.unitHashable = true := by
+  rw [source_shape] at hc; cases hc; rfl
+
+/-- the round trip, all invertible types, all values; `…_partial`: the full statement (no guard) is false, see the
+counter-examples below -/
+theorem ofPy_toPy_partial (c : Cfg) (hc : cfg? = some c) (τ : Ty) (v : Val)
+    (hτ : PyInvertible c τ) (hv : HasTy c τ v) :
+    (toPy c false τ v).bind (ofPy c τ) = .ok v := by
+  obtain ⟨py, h1, h2, _, _⟩ := (roundtrip_all c (cfg_unit hc) τ).1 false v hτ hv
+  rw [h1]; exact h2
+
+/-- the same for the rendering of map keys / set elements (`comparable=True`: pairs as tuples, unions as
+`(name, value)`), and the object is hashable -/
+theorem ofPy_toPy_key_partial (c : Cfg) (hc : cfg? = some c) (τ : Ty) (v : Val)
+    (hτ : inv c true τ = true) (hv : HasTy c τ v) :
+    ∃ py, toPy c true τ v = .ok py ∧ ofPy c τ py = .ok v ∧ py.hashable c = true := by
+  obtain ⟨py, h1, h2, h3, _⟩ := (roundtrip_all c (cfg_unit hc) τ).1 true v hτ hv
+  exact ⟨py, h1, h2, h3 rfl⟩
+
+/-- different values have different Python objects -/
+theorem toPy_injective_partial (c : Cfg) (hc : cfg? = some c) (τ : Ty) (u v : Val)
+    (hτ : PyInvertible c τ) (hu : HasTy c τ u) (hv : HasTy c τ v) (h : toPy c false τ u = toPy c false τ v) : u = v := by
+  have h1 := ofPy_toPy_partial c hc τ u hτ hu
+  have h2 := ofPy_toPy_partial c hc τ v hτ hv
+  rw [h] at h1
+  rw [h1] at h2
+  exact Except.ok.inj h2
+
+/-- field names are unique: in the layout of an invertible pair / union no name occurs twice -/
+theorem field_names_unique (c : Cfg) (τ : Ty) (hτ : PyInvertible c τ) :
+    match τ with
+    | .pair a l r => ∀ p2k, (pairLayout (.pair a l r)).pathToKey = some p2k → (p2k.map (·.2)).Nodup
+    | .or a l r => ∀ p2k, (orLayout (.or a l r)).pathToKey = some p2k → (p2k.map (·.2)).Nodup
+    | _ => True := by
+  cases τ with
+  | pair a l r =>
+    intro p2k hp
+    unfold PyInvertible at hτ
+    simp only [inv, Bool.and_eq_true, Bool.false_or, namesNodup, hp, decide_eq_true_eq] at hτ
+    exact hτ.1.1
+  | or a l r =>
+    intro p2k hp
+    unfold PyInvertible at hτ
+    simp only [inv, Bool.and_eq_true, namesNodup, hp, decide_eq_true_eq] at hτ
+    exact hτ.1.1
+  | _ => trivial
+
+/-- field names are stable: the layout is a function of the type alone (`pairLayout τ`), and the record every value
+of a named pair converts to has exactly the layout's names as keys, in the layout's order -/
+theorem layout_stable (c : Cfg) (hc : cfg? = some c) (a : Ann) (l r : Ty) (v : Val)
+    (hτ : PyInvertible c (.pair a l r)) (hv : HasTy c (.pair a l r) v)
+    (p2k : List (Path × String)) (hm : (pairLayout (.pair a l r)).pathToKey = some p2k) :
+    ∃ fields, toPy c false (.pair a l r) v = .ok (.record fields) ∧ fields.map (·.1) = p2k.map (·.2) :=
+  pair_record_keys c (cfg_unit hc) a l r v hτ hv p2k hm
+
+/-- `ContractData.decode` / `encode` are mutual inverses (given that the Micheline coding of values round-trips,
+which is C11): decoding the Micheline form of `v` gives an object whose encoding is that Micheline form again, and
+decoding that gives the same object -/
+theorem encode_decode_inverse {M : Type} (k : Codec M) (c : Cfg) (hc : cfg? = some c) (τ : Ty) (v : Val)
+    (hk : k.ofMich τ (k.toMich τ v) = .ok v) (hτ : PyInvertible c τ) (hv : HasTy c τ v) :
+    ∃ py, decode k c τ (k.toMich τ v) = .ok py
+      ∧ encode k c τ py = .ok (k.toMich τ v)
+      ∧ (encode k c τ py).bind (decode k c τ) = .ok py := by
+  obtain ⟨py, h1, h2, _, _⟩ := (roundtrip_all c (cfg_unit hc) τ).1 false v hτ hv
+  refine ⟨py, by simp [decode, hk, Except.bind, h1], by simp [encode, h2, Except.map], ?_⟩
+  simp [encode, decode, h2, Except.map, Except.bind, hk, h1]
+
+/-! ### the excluded classes really fail (kernel-evaluated on the mirror; replayed on the real code by the check) -/
 
 def natT : Ty := .scalar {} .nat
 def cfgNow : Cfg := ⟨true, true⟩
@@ -9,15 +99,50 @@ def cfgNow : Cfg := ⟨true, true⟩
 /-- `option (option nat)`: `Some None` and `None` have the same Python object, so `Some None` comes back as `None` -/
 theorem option_option_counterexample :
     okPy (toPy cfgNow false (.option {} (.option {} natT)) (.some .none)) .none = true
-    ∧ okVal (ofPy cfgNow (.option {} (.option {} natT)) .none) .none = true := by
+    ∧ okVal (ofPy cfgNow (.option {} (.option {} natT)) .none) .none = true
+    ∧ inv cfgNow false (.option {} (.option {} natT)) = false := by
   decide +kernel
 
-/-- `pair (nat %nat_1) nat`: the generated name of the second component is `nat_1` too -/
+/-- `pair (nat %nat_1) nat`: the generated name of the second component is `nat_1` too; the record loses a field and
+does not convert back -/
 theorem name_collision_counterexample :
     (pairLayout (.pair {} (.scalar { field := some "nat_1" } .nat) natT)).pathToKey = some [([false], "nat_1"), ([true], "nat_1")]
     ∧ okPy (toPy cfgNow false (.pair {} (.scalar { field := some "nat_1" } .nat) natT) (.pair (.int 1) (.int 2)))
         (.record [("nat_1", .int 2)]) = true
-    ∧ isErr (ofPy cfgNow (.pair {} (.scalar { field := some "nat_1" } .nat) natT) (.record [("nat_1", .int 2)])) .key = true := by
+    ∧ isErr (ofPy cfgNow (.pair {} (.scalar { field := some "nat_1" } .nat) natT) (.record [("nat_1", .int 2)])) .key = true
+    ∧ inv cfgNow false (.pair {} (.scalar { field := some "nat_1" } .nat) natT) = false := by
   decide +kernel
+
+/-- `or (nat %string_1) string`: `Left 1` renders as `{'string_1': 1}`, which is decoded against the right branch -/
+theorem name_collision_or_counterexample :
+    okPy (toPy cfgNow false (.or {} (.scalar { field := some "string_1" } .nat) (.scalar {} .string)) (.left (.int 1)))
+        (.record [("string_1", .int 1)]) = true
+    ∧ isErr (ofPy cfgNow (.or {} (.scalar { field := some "string_1" } .nat) (.scalar {} .string)) (.record [("string_1", .int 1)])) .assertion = true
+    ∧ inv cfgNow false (.or {} (.scalar { field := some "string_1" } .nat) (.scalar {} .string)) = false := by
+  decide +kernel
+
+/-- what the source-dependent exclusions guard against: without `unit.__hash__` a set of units does not convert back -/
+theorem unhashable_unit_counterexample :
+    okPy (toPy ⟨false, true⟩ false (.set {} (.scalar {} .unit)) (.set [.unit])) (.list [.unit]) = true
+    ∧ isErr (ofPy ⟨false, true⟩ (.set {} (.scalar {} .unit)) (.list [.unit])) .type = true
+    ∧ inv ⟨false, true⟩ false (.set {} (.scalar {} .unit)) = false := by
+  decide +kernel
+
+/-! ### non-vacuity: an FA2-like storage with a named inner pair, a big_map literal, an enum and a composite map key -/
+def storageT : Ty :=
+  .pair {} (.bigMap { field := some "ledger" } (.pair {} (.scalar { field := some "owner" } .string) (.scalar {} .nat)) (.scalar {} .nat))
+    (.pair {} (.pair { field := some "admin" } (.scalar { field := some "current" } .string) (.option { field := some "pending" } (.scalar {} .string)))
+      (.or { field := some "state" } (.scalar { field := some "active" } .unit) (.scalar { field := some "paused" } .unit)))
+
+def storageV : Val :=
+  .pair (.bigMap [(.pair (.str "alice") (.int 0), .int 10), (.pair (.str "bob") (.int 1), .int 5)])
+    (.pair (.pair (.str "alice") .none) (.right .unit))
+
+example : PyInvertible cfgNow storageT := by decide +kernel
+example : okPy (toPy cfgNow false storageT storageV)
+    (.record [("ledger", .dict [(.tuple [.str "alice", .int 0], .int 10), (.tuple [.str "bob", .int 1], .int 5)]),
+              ("admin", .record [("current", .str "alice"), ("pending", .none)]), ("state", .str "paused")]) = true := by
+  decide +kernel
+example : okVal ((toPy cfgNow false storageT storageV).bind (ofPy cfgNow storageT)) storageV = true := by decide +kernel
 
 end C12
